@@ -16,8 +16,8 @@ META = {
 PROFILE = {'n_rps': 2, 'setup_ops': 16,
            'setup_weights': {'rp_delete': 0, 'alloc_put': 25, 'alloc_delete': 1, 'rc_rename': 0, 'rc_delete': 0, 'trait_delete': 0,
                              'rp_update': 0},
-           'race_kinds': {'alloc_put': 8, 'alloc_post': 2, 'inv_set': 3, 'inv_update': 2, 'rp_traits_set': 1, 'aggs_set': 1, 'reshape': 2},
-           'p_three': 0.08}
+           'race_kinds': {'alloc_put': 8, 'alloc_post': 3, 'inv_set': 3, 'inv_update': 2, 'rp_traits_set': 1, 'aggs_set': 1, 'reshape': 3},
+           'p_three': 0.08, 'empty_bias': 0.2, 'p_move': 0.3, 'p_empty_reshape': 0.7, 'existing_consumer_bias': 0.5}
 
 
 def run(chk):
